@@ -158,7 +158,9 @@ def run_case(c, module=None):
                     tgt = getattr(tgt, pn)
                 tgt.move(_buffer=(ctxs[0].new_buffer(64) if op["buf"].startswith("N") else bufs[op["buf"]]))
             elif o == "grow":
-                b = bufs[op["buf"]]; b.grow(max(int(b.capacity), 64))
+                b = bufs[op["buf"]]; b.grow(op.get("extra") or max(int(b.capacity), 64))
+            elif o == "grow_obj":          # the buffer an object lives in (e.g. a restored one) grows by a little
+                objs[op["obj"]]._buffer.grow(op["extra"])
             elif o == "raw_alloc":        # somebody else's allocation in the same buffer
                 raw = res.setdefault("_raw", {})
                 raw[op["name"]] = (op["buf"], int(bufs[op["buf"]].allocate(op["size"])), op["size"])
